@@ -1,4 +1,8 @@
-//go:build verif
+//go:build verif && verif_c12wb
+
+// (the white-box group of C12: only the C12 harness asks for the tag verif_c12wb, so a rename in
+// checkpoint.go / serialization.go that this file does not follow cannot stop the other properties'
+// harnesses, built with -tags verif, from compiling)
 
 package serialization
 
